@@ -1,1 +1,2 @@
 import Props.C01
+import Props.C05
